@@ -3,7 +3,7 @@
     [run ft ops] = the state after the history [ops], any length, any
     operations; [ft] = the formula table of the case). *)
 From Coq Require Import List String Bool ZArith NArith.
-From MX Require Import Alive.Model Alive.ProofsRes Alive.ProofsStr Alive.ProofsDer Alive.ProofsStep Alive.ProofsTop Alive.ProofsInh Alive.ProofsAcyc Alive.ProofsClos.
+From MX Require Import Alive.Model Alive.ProofsRes Alive.ProofsStr Alive.ProofsDer Alive.ProofsStep Alive.ProofsTop Alive.ProofsInh Alive.ProofsAcyc Alive.ProofsNcc Alive.ProofsClos.
 Import ListNotations.
 
 (** C13_no_residue: after every history no container (cells / spaces /
@@ -75,6 +75,12 @@ Theorem C13_invariant_acyclic : forall ft ops, Inv2 (run ft ops).
 Proof. exact inv2_run. Qed.
 Print Assumptions C13_invariant_acyclic.
 
+(** [Inv3] = [Inv], acyclic, and nothing is ever inside a cells ([Ncc]: no
+    containment chain passes through a cells) *)
+Theorem C13_invariant_full : forall ft ops, Inv3 (run ft ops).
+Proof. exact inv3_run. Qed.
+Print Assumptions C13_invariant_full.
+
 (** hence the fuelled ancestor computation of the model is exact (sound and
     COMPLETE) in every reachable state: [anc] = transitive closure of the base
     lists, [definer st T n c] = c is a live defined cells named n in a proper
@@ -121,10 +127,9 @@ Print Assumptions C13_derived_survives_remove_bases.
 (** C13_alive_untouched_*: an operation kills nothing outside its closure.
     Whatever object v (of any kind) was alive before and is dead afterwards
       (1) is the deleted object or is inside it, or
-      (2) is a derived cells d left without definer ([undefined_in G d T]: d is
+      (2) is a derived cells left without definer ([undefined_in G v T]: v is
           a live derived cells of T and no proper ancestor of T defines its
-          name in the graph G after the removal) - or is inside one (nothing is
-          ever inside a cells, but that is not among the invariants proved), or
+          name in the graph G after the removal), or
       (3) is, or is inside, an ItemSpace r that holds a dynamic copy of a space
           W ([dyn_roots st W], in the state before; [dyn_roots_spec]: r is the
           nearest ItemSpace around a live ItemSpace / dynamic space built from
@@ -136,33 +141,39 @@ Print Assumptions C13_derived_survives_remove_bases.
     converse of (3) - these ItemSpaces do die - is C13_reinherit_* below, the
     converse of (2) is C13_derived_survives_*, of (1) C13_dead. *)
 Theorem C13_alive_untouched_space : forall st p x st' o v,
-  Inv2 st -> step_del_space st p x = (st', o) -> alive st v = true -> alive st' v = false ->
+  Inv3 st -> step_del_space st p x = (st', o) -> alive st v = true -> alive st' v = false ->
   (v = x \/ In x (chain_of st v))
-  \/ (exists d T, (d = v \/ In d (chain_of st v)) /\ undefined_in (without st x) d T)
+  \/ (exists T, undefined_in (without st x) v T)
   \/ (exists r W, (r = v \/ In r (chain_of st v)) /\ In r (dyn_roots st W) /\
         (W = x
          \/ (exists y, In y (under_set st [x]) /\ is_kind st KSpace y = true /\ In W (subs_of st y))
          \/ (W = p /\ is_kind st KSpace p = true)
          \/ exists d, undefined_in (without st x) d W)).
-Proof. exact del_space_closure. Qed.
+Proof. exact del_space_closure_sharp. Qed.
 Print Assumptions C13_alive_untouched_space.
 
 Theorem C13_alive_untouched_cells : forall st s c st' v,
-  Inv2 st -> step_del_cells st s c = (st', ODone) -> alive st v = true -> alive st' v = false ->
-  (v = c \/ In c (chain_of st v))
-  \/ (exists d T, (d = v \/ In d (chain_of st v)) /\ undefined_in (without st c) d T)
+  Inv3 st -> step_del_cells st s c = (st', ODone) -> alive st v = true -> alive st' v = false ->
+  v = c
+  \/ (exists T, undefined_in (without st c) v T)
   \/ (exists r W, (r = v \/ In r (chain_of st v)) /\ In r (dyn_roots st W) /\
         (In W (s :: subs_of st s) \/ exists d, undefined_in (without st c) d W)).
-Proof. exact del_cells_closure. Qed.
+Proof. exact del_cells_closure_sharp. Qed.
 Print Assumptions C13_alive_untouched_cells.
 
 Theorem C13_alive_untouched_remove_bases : forall st s bs st' v,
-  Inv2 st -> step_remove_bases st s bs = (st', ODone) -> alive st v = true -> alive st' v = false ->
-  (exists d T, (d = v \/ In d (chain_of st v)) /\ undefined_in (cut_bases st s bs) d T)
+  Inv3 st -> step_remove_bases st s bs = (st', ODone) -> alive st v = true -> alive st' v = false ->
+  (exists T, undefined_in (cut_bases st s bs) v T)
   \/ (exists r W, (r = v \/ In r (chain_of st v)) /\ In r (dyn_roots st W) /\
         (In W (s :: subs_of st s) \/ exists d, undefined_in (cut_bases st s bs) d W)).
-Proof. exact remove_bases_closure. Qed.
+Proof. exact remove_bases_closure_sharp. Qed.
 Print Assumptions C13_alive_untouched_remove_bases.
+
+(** what [dyn_roots st W] holds: r is the nearest ItemSpace around (or is) a
+    live ItemSpace or dynamic space e built as a copy of W *)
+Theorem C13_dyn_roots_spec : forall st W r, In r (dyn_roots st W) <-> holds_copy st r W.
+Proof. exact dyn_roots_spec. Qed.
+Print Assumptions C13_dyn_roots_spec.
 
 (** the re-inheritance pass after [add_bases] (the sub spaces are taken in the
     graph with the new edges, [paste_bases]) kills ItemSpaces only *)
